@@ -338,6 +338,11 @@ where
             && egress_buffer.is_empty()
             && pending_vectored.is_empty();
           if expired || flushed {
+            crate::verif_event!(
+              "sess.lingerdone",
+              "\"sca\":{},\"sock\":{},\"expired\":{},\"flushed\":{},\"tm\":{}",
+              self.handle, self.parent_socket_id, expired, flushed, crate::verif::elapsed_ms()
+            );
             self.transition_to_shutdown_stream(None).await;
             break 'operational;
           }
@@ -755,6 +760,16 @@ where
         log_session_diagnostics!(last_log_ms, self, ingress_buffer, egress_buffer, sndhwm, core_carryover);
       }
 
+      crate::verif_event!(
+        "sess.opend",
+        "\"sca\":{},\"sock\":{},\"phase\":\"{:?}\",\"unsent\":{},\"egress_empty\":{},\"tm\":{}",
+        self.handle,
+        self.parent_socket_id,
+        self.current_phase,
+        core_carryover.len() + egress_buffer.pending_messages() + pending_vectored.len(),
+        egress_buffer.is_empty(),
+        crate::verif::elapsed_ms()
+      );
       self.read_half = Some(read_half);
       self.write_half = Some(write_half);
 
@@ -883,6 +898,11 @@ where
         if self.linger_until.is_none() && !self.socket_logic.core().is_running() {
           self.on_parent_closing().await;
         }
+        crate::verif_event!(
+          "sess.stop",
+          "\"sca\":{},\"sock\":{},\"lingering\":{},\"tm\":{}",
+          self.handle, self.parent_socket_id, self.linger_until.is_some(), crate::verif::elapsed_ms()
+        );
         if self.linger_until.is_some() && self.current_phase == ConnectionPhaseX::Operational {
           self.flush_then_stop = true;
         } else {
@@ -923,6 +943,11 @@ where
       return;
     }
     let linger = self.socket_logic.core().core_state.read().options.linger;
+    crate::verif_event!(
+      "sess.closing",
+      "\"sca\":{},\"sock\":{},\"linger\":{},\"tm\":{}",
+      self.handle, self.parent_socket_id, linger.map_or(-1i64, |d| d.as_millis() as i64), crate::verif::elapsed_ms()
+    );
     match linger {
       Some(d) if d.is_zero() => self.transition_to_shutdown_stream(None).await,
       _ if self.linger_until.is_none() => {
